@@ -24,7 +24,7 @@ import (
 type VerifierCircuit struct {
 	PublicInputs []gl.Variable `gnark:",public"`
 	Proof        variables.Proof
-	VerifierData variables.VerifierOnlyCircuitData
+	VerifierData variables.VerifierOnlyCircuitData `gnark:"-"` // the inner circuit's key is a compile-time constant, never a witness
 
 	// This is configuration for the circuit, it is a constant not a variable
 	CommonCircuitData types.CommonCircuitData `gnark:"-"`
@@ -32,7 +32,7 @@ type VerifierCircuit struct {
 
 type CircuitFixed struct {
 	PublicInputs      [4]frontend.Variable `gnark:",public"`
-	VerifierData      variables.VerifierOnlyCircuitData
+	VerifierData      variables.VerifierOnlyCircuitData `gnark:"-"` // the inner circuit's key is a compile-time constant, never a witness
 	ProofWithPis      variables.ProofWithPublicInputs
 	CommonCircuitData types.CommonCircuitData `gnark:"-"`
 }
